@@ -452,14 +452,16 @@ with loop5 (f : nat) (u : list token) {struct f} : pres OpExpr5s :=
       | [] => POk O5Nil u
       end
   end
-(* ("!")? Expr6 : the optional group always matches, so a missing Expr6 is an error *)
+(* ("!":Punct)? Expr6 : the literal is matched only on a token of lexer type Punct (a String
+   token whose unquoted value is "!" is not the operator); the optional group always matches,
+   so a missing Expr6 is an error *)
 with parse_expr5 (f : nat) (ts : list token) {struct f} : pres Expr5 :=
   match f with
   | O => PFuel
   | S f' =>
       match ts with
       | o :: r =>
-          if is_lit o L_bang then pmap (MkExpr5 true) (seq_tail r (parse_expr6 f' r))
+          if is_lit o L_bang && kind_eqb (tk o) KPunct then pmap (MkExpr5 true) (seq_tail r (parse_expr6 f' r))
           else pmap (MkExpr5 false) (seq_tail ts (parse_expr6 f' ts))
       | [] => pmap (MkExpr5 false) (seq_tail ts (parse_expr6 f' ts))
       end
